@@ -244,6 +244,12 @@ impl<'r> Gen<'r> {
                         let mut inner = we::ComponentType::new();
                         inner.core_type().core().rec(vec![rec_member(1)]);
                         if self.r.chance(1, 2) { inner.ty().defined_type().stream(None); self.stream_future_nested = true; }
+                        // import / export declarations inside the NESTED component type (converted by wrappers.rs, not by the
+                        // inline code for section-level types): resources, and a function type declared in front of them
+                        for _ in 0..self.r.below(3) {
+                            let n = self.name("w");
+                            if self.r.chance(1, 2) { inner.import(&n, ComponentTypeRef::Type(TypeBounds::SubResource)); } else { inner.export(&n, ComponentTypeRef::Type(TypeBounds::SubResource)); }
+                        }
                         ct.ty().component(&inner);
                         local.push(Ty::CompOther);
                     }
